@@ -410,7 +410,7 @@ theorem stopSections_flags (mf : List Nat) : ∀ (n k : Nat),
             | cons a l => rw [hl] at h3; simpa [List.getLast?_cons_cons] using h3
           · cases hl : List.filterMap stopFlag (stopSections mf (k + 1) n).flatten with
             | nil => rw [hl] at h1; simp at h1
-            | cons a l => rw [hl] at h4; simpa [List.dropLast_cons₂] using h4
+            | cons a l => rw [hl] at h4; simpa [List.dropLast_cons_cons] using h4
 
 theorem causeOk_eq (i : SInput) (c : Cause) : Spec.C13.causeOk i c = Conc.causeOk i c := by
   cases c <;> rfl
@@ -623,19 +623,19 @@ theorem testsEvents_noBroken (wi : Nat) (ev : SEv) (hev : ev.id = .broken) : ∀
   | t :: ts, j => by
       have hne : ∀ k : SKind, ((⟨wi, .t j, k⟩ : SEv) == ev) = false := by
         intro k; simp; intro hc; rw [← hc] at hev; cases hev
-      simp [testsEvents, List.filter_cons, hne, testsEvents_noBroken wi ev hev ts (j + 1)]
+      simp [testsEvents, hne, testsEvents_noBroken wi ev hev ts (j + 1)]
 
 theorem fileEvents_noFail (wi : Nat) : ∀ n : Nat, (fileEvents wi n).filter (· == (⟨wi, .broken, .st .fail⟩ : SEv)) = []
   | 0 => by simp [fileEvents]
   | 1 => by simp [fileEvents]
-  | n + 2 => by simp [fileEvents, List.filter_cons, fileEvents_noFail wi (n + 1)]
+  | n + 2 => by simp [fileEvents, fileEvents_noFail wi (n + 1)]
 
 theorem stream_broken_count (wi tb : Nat) (w : Worker) :
     ((streamEvents wi tb w).filter (· == (⟨wi, .broken, .st .fail⟩ : SEv))).length = (if w.boom then 1 else 0) := by
   unfold streamEvents
   rw [List.filter_append, testsEvents_noBroken wi _ rfl]
   split
-  · simp [brokenEvents, List.filter_cons, List.filter_append, fileEvents_noFail]
+  · simp [brokenEvents, List.filter_append, fileEvents_noFail]
   · rfl
 
 theorem c_brokenRunner (i : SInput) : cBrokenRunner i (modelC i) = true := by
@@ -687,5 +687,181 @@ theorem c_brokenRunner (i : SInput) : cBrokenRunner i (modelC i) = true := by
         simp [hcount]
       · simp [hfl]
     · simp [hlt]
+
+/-! ## headline -/
+
+/-- **Headline (partial because of finding `lostStop`)**: for every input outside the finding class — no
+registered worker still had its `startTestRun` pending when `run()` aborted — the executable specification
+holds of the model's trace.
+Full statement (false of the code, see `C13_lostStop_witness`): `∀ i, holds i (modelC i) = true`. -/
+theorem holds_model_partial (i : SInput) (h : (finalC i).late = []) : holds i (modelC i) = true := by
+  simp only [holds, clauses, List.all_cons, List.all_nil, Bool.and_true, Bool.and_eq_true]
+  exact ⟨c_oneAtATime i, c_delivered i, c_complete i, c_brokenRunner i, c_abort i h, c_terminates i⟩
+
+/-- for **every** input, also inside the finding class, every clause other than `abort` holds -/
+theorem holds_model_but_abort (i : SInput) :
+    ∀ c ∈ clauses, c.1 ≠ "abort" → c.2 i (modelC i) = true := by
+  intro c hc hne
+  simp only [clauses, List.mem_cons, List.not_mem_nil, or_false] at hc
+  rcases hc with rfl | rfl | rfl | rfl | rfl | rfl
+  · exact c_oneAtATime i
+  · exact c_delivered i
+  · exact c_complete i
+  · exact c_brokenRunner i
+  · exact absurd rfl hne
+  · exact c_terminates i
+
+/-! ## readable statements -/
+
+/-- states reachable by some schedule -/
+def reach (i : SInput) (sched : List Nat) : CSt := runC i (initC i) sched
+
+/-- **C13 (no stuck state)** — after *any* schedule: while `run()` has not ended or a started worker is unfinished,
+some thread is enabled (main is never left waiting at `get`/`join` for something that cannot come). -/
+theorem C13_no_stuck (i : SInput) (sched : List Nat) (h : finishedC (reach i sched) = false) :
+    ∃ t, t < (reach i sched).base.pcs.length ∧ enabledC i (reach i sched) t = true :=
+  exists_enabledC (QInv_runC sched (QInv_init i)) (BI_runC sched (BI_init i) (QInv_init i)) h
+
+/-- **C13 (progress)** — after *any* schedule every enabled step decreases the measure `pot`, so a schedule that
+keeps picking enabled threads ends after at most `pot` steps. -/
+theorem C13_progress (i : SInput) (sched : List Nat) (t : Nat) (h : enabledC i (reach i sched) t = true) :
+    pot i (stepC i (reach i sched) t) < pot i (reach i sched) :=
+  pot_step_lt (QInv_runC sched (QInv_init i)) (BI_runC sched (BI_init i) (QInv_init i)) h
+
+/-- **C13 (terminates)** — for every input the run (any schedule, then the lowest enabled thread) ends: `run()`
+has returned or raised, and every thread that was started has ended. -/
+theorem C13_terminates (i : SInput) :
+    (finalC i).mpc = .done ∧ (finalC i).result.isSome = true ∧ ∀ w, w < (finalC i).nsp → (finalC i).base.pcs[w + 1]? = some [] :=
+  ⟨(final_done i).1, final_result_some i, fun _ hw => final_workerDone i hw⟩
+
+/-- **C13 (one test at a time)** — after *any* schedule the log of the caller's TestResult and the semaphore is
+a sequence of whole critical sections plus at most the holder's open one (C12's invariant carries over,
+including main's `stop()` calls in the abort path). -/
+theorem C13_one_at_a_time (i : SInput) (sched : List Nat) :
+    ∃ closed cur, (reach i sched).base.log = flatLog closed ++ openLog (reach i sched).base.sem cur := by
+  obtain ⟨closed, cur, _, _, h⟩ := BI_runC sched (BI_init i) (QInv_init i)
+  exact ⟨closed, cur, h.inv.log_eq⟩
+
+/-- … and at the end every section is a well-shaped block of the thread that made it -/
+theorem C13_blocks_final (i : SInput) :
+    ∃ closed, (finalC i).base.log = flatLog closed ∧ ∀ p ∈ closed, Spec.C12.shapeOk p.2 = true := by
+  obtain ⟨closed, hlog, _, _, _⟩ := final_log i
+  refine ⟨closed, hlog, ?_⟩
+  have := c_oneAtATime i
+  obtain ⟨closed', hp, _⟩ := final_parse i
+  have hpe : Spec.C12.parse (modelC i).log = some closed := by
+    show Spec.C12.parse (finalC i).base.log = _
+    rw [hlog]; exact TTV.Props.C12.parse_flat closed
+  simp only [cOneAtATime, hpe, List.all_eq_true] at this
+  exact this
+
+/-- **C13 (complete)** — if `run()` returns normally then: every sub-suite that `make_tests` yields was started,
+none is still running, every one has been joined or is no longer registered, and (stream) for every worker
+the events the caller's result received with that worker's route code are exactly the worker's events,
+in its order, once each; (suite) the sections of the worker's thread are exactly those of its program. -/
+theorem C13_complete (i : SInput) (h : (finalC i).result = some .returned) :
+    (finalC i).nsp = i.workers.length ∧ (finalC i).liveAtReturn = [] ∧ (finalC i).reg = []
+    ∧ (∀ w, w < i.workers.length → (finalC i).base.pcs[w + 1]? = some [])
+    ∧ (∀ w, w < i.workers.length → Conc.sinkOf w (finalC i).sink = eventsOf i w)
+    ∧ (∀ p ∈ (finalC i).sink, p.2 = false) := by
+  have hr := RInv_final i
+  have hq := QInv_final i
+  obtain ⟨hreg, hnsp, hlive⟩ := hr.r_returned h
+  refine ⟨hnsp, hlive, hreg, fun w hw => final_workerDone i (by omega), ?_, (hr.r_clean (by simp [(final_done i).1]) (Or.inr h)).2.2⟩
+  intro w hw
+  have hacct := final_sink_acct i w hw
+  have htodo : todoItems (finalC i) w = [] := by
+    by_cases hc : todoItems (finalC i) w = []
+    · exact hc
+    · have := (hq.reg_iff w).mpr ⟨by omega, hc⟩
+      rw [hreg] at this; cases this
+  rw [htodo] at hacct
+  simpa [statusesOf] using hacct
+
+/-- **C13 (delivery, always)** — also when `run()` is aborted: what the caller's StreamResult received with
+route code `w` is a prefix of worker `w`'s events (nothing lost in the middle, nothing twice, nothing
+re-ordered, nothing invented), every event carries a route code of a started worker. -/
+theorem C13_delivery_prefix (i : SInput) (sched : List Nat) (w : Nat) (hw : w < i.workers.length) :
+    ∃ rest, Conc.sinkOf w (reach i sched).sink ++ rest = eventsOf i w := by
+  have := (SInv_runC sched (SInv_init i) (QInv_init i)).acct w hw
+  exact ⟨hand (reach i sched) w ++ statusesOf (todoItems (reach i sched) w), by simpa [reach] using this⟩
+
+/-- **C13 (broken runner, stream)** — the events of a worker whose `run()` raises contain exactly one final
+`fail` status of the `broken-runner` test; those of other workers none. -/
+theorem C13_broken_runner_stream (wi tb : Nat) (w : Worker) :
+    ((streamEvents wi tb w).filter (· == (⟨wi, .broken, .st .fail⟩ : SEv))).length = (if w.boom then 1 else 0) :=
+  stream_broken_count wi tb w
+
+/-- **C13 (broken runner, suite)** — when the caller's result does not raise, the sections of a worker whose
+`run()` raises contain exactly one `addError(broken-runner)`; those of other workers none. -/
+theorem C13_broken_runner_suite (wi : Nat) (w : Worker) (hf : w.faults = []) :
+    (((segSecs (suiteProg wi w).segs).flatten).filter isBE).length = (if w.boom then 1 else 0) :=
+  suite_broken_count wi w hf
+
+/-- **C13 (abort — partial, finding `lostStop`)** — if `run()` raised: the exception is one the input causes; in
+the suite flavour `stop()` reached the caller's result once per still-registered worker (or the `stop()`
+itself raised and cut the loop); in the stream flavour, **provided no registered worker still had its
+`startTestRun` pending at the abort**, every still-registered worker's result has `shouldStop` set.
+Full statement (without the proviso) is false of the code: `C13_lostStop_witness`. -/
+theorem C13_abort_partial (i : SInput) (c : Cause) (h : (finalC i).result = some (.raised c)) :
+    Conc.causeOk i c = true
+    ∧ (i.flavour = .suite → (finalC i).msecs = stopSections i.mfaults 0 (finalC i).reg.length)
+    ∧ (i.flavour = .stream → (finalC i).late = [] → ∀ w ∈ (finalC i).reg, (finalC i).flags[w]? = some true) := by
+  have hr := RInv_final i
+  refine ⟨hr.r_cause c (Or.inl h), hr.r_msecs (Or.inr ⟨c, h⟩), ?_⟩
+  intro hf hlate w hw
+  rcases (FInv_final i).f_set c h hf w hw with h1 | h1
+  · exact h1
+  · rw [hlate] at h1; cases h1
+
+/-- on normal return nobody is told to stop -/
+theorem C13_no_spurious_stop (i : SInput) (h : (finalC i).result = some .returned) :
+    (finalC i).msecs = [] ∧ ∀ b ∈ (finalC i).flags, b = false := by
+  have := (RInv_final i).r_clean (by simp [(final_done i).1]) (Or.inr h)
+  exact ⟨this.1, this.2.1⟩
+
+/-! ## the finding -/
+
+/-- one worker, stream flavour, `make_tests` raises after yielding it: `run()` aborts before the worker has
+forwarded its `startTestRun` -/
+def lostStopInput : SInput :=
+  { flavour := .stream, workers := [{ tests := [{ kind := .success, tags := [] }], boom := false, faults := [] }],
+    mkRaise := some 1, intr := none, mfaults := [], tb := 4, sched := [] }
+
+/-- **finding `lostStop`** — the model exhibits the defect of the code: the input is in the class, `run()` raised,
+worker 0 is still registered, was told to stop, and its `shouldStop` ends up `False`; the `abort` clause fails. -/
+theorem C13_lostStop_witness :
+    (finalC lostStopInput).late = [0] ∧ (finalC lostStopInput).result = some (.raised .makeTests)
+    ∧ (finalC lostStopInput).reg = [0] ∧ (finalC lostStopInput).flags = [false]
+    ∧ cAbort lostStopInput (modelC lostStopInput) = false := by decide
+
+/-! ## non-vacuity -/
+
+def exSuite : SInput :=
+  { flavour := .suite,
+    workers := [{ tests := [{ kind := .success, tags := [] }], boom := true, faults := [] },
+                { tests := [{ kind := .error, tags := [1] }], boom := false, faults := [] }],
+    mkRaise := none, intr := none, mfaults := [], tb := 4, sched := [0, 2, 0, 1, 2, 2, 1, 1, 0, 2] }
+
+/-- a normal return in the suite flavour: both workers started and joined, worker 0's broken runner reported -/
+example : (modelC exSuite).result = some .returned ∧ (modelC exSuite).spawned = [0, 1] ∧ (modelC exSuite).liveAtReturn = []
+    ∧ brokenErrors 0 (modelC exSuite) = 1 ∧ holds exSuite (modelC exSuite) = true := by decide
+
+def exStreamAbort : SInput :=
+  { flavour := .stream,
+    workers := [{ tests := [{ kind := .success, tags := [] }], boom := false, faults := [] },
+                { tests := [{ kind := .failure, tags := [] }], boom := false, faults := [] }],
+    mkRaise := none, intr := none, mfaults := [2], tb := 4, sched := [0, 0, 1, 2, 1, 2, 0, 0, 0, 1, 2] }
+
+/-- the caller's StreamResult raises at its third status call: `run()` raises, both workers are still registered
+and both are told to stop (outside the finding class) -/
+example : (modelC exStreamAbort).result = some (.raised .injected) ∧ (finalC exStreamAbort).late = []
+    ∧ registered (modelC exStreamAbort) = [0, 1] ∧ (modelC exStreamAbort).flags = [true, true]
+    ∧ holds exStreamAbort (modelC exStreamAbort) = true := by decide
+
+/-- the `delivered` clause is not trivially true: a duplicated event is rejected -/
+example : cDelivered { exStreamAbort with mfaults := [] }
+    { (modelC { exStreamAbort with mfaults := [] }) with
+      sink := (modelC { exStreamAbort with mfaults := [] }).sink ++ [(⟨0, .t 0, .st .success⟩, true, false)] } = false := by decide
 
 end TTV.Props.C13
